@@ -58,6 +58,7 @@ def run_case(ns, ctx, case):
 
     mods, model = {}, {}            # id -> real module / model node
     params, pmodel = {}, {}         # id -> real Parameter / {"req":bool,"grad":None|'zero'|'ones'}
+    sources = {}                    # id -> the tensor object a parameter was made from
     trail = []
     features = set()
 
@@ -70,7 +71,23 @@ def run_case(ns, ctx, case):
             pmodel[pid] = {"req": False, "grad": None, "size": int(np.prod(shp)) if shp else 1, "int": True}
             features.add("integer-parameter")
             return pid
-        params[pid] = nn.Parameter(T(rng.standard_normal(shp).astype(np.float32), requires_grad=True))
+        r_ = rng.random()
+        donors = [q for q in params if not pmodel[q].get("int")]
+        if r_ < 0.12 and donors:
+            # tied storage: a second, distinct Parameter over the very array an earlier parameter holds (two parameters, one buffer), or a
+            # second Parameter made from the same source tensor object - each is a parameter of its own (own flag, own gradient)
+            q = donors[int(rng.integers(len(donors)))]
+            if r_ < 0.06 and q in sources:
+                params[pid] = nn.Parameter(sources[q])
+                features.add("two-parameters-from-one-source-tensor")
+            else:
+                params[pid] = nn.Parameter(T(params[q].data, requires_grad=True))
+                features.add("two-parameters-over-one-array")
+            pmodel[pid] = {"req": True, "grad": None, "size": pmodel[q]["size"]}
+            return pid
+        src_ = T(rng.standard_normal(shp).astype(np.float32), requires_grad=True)
+        sources[pid] = src_
+        params[pid] = nn.Parameter(src_)
         pmodel[pid] = {"req": True, "grad": None, "size": int(np.prod(shp)) if shp else 1}
         return pid
 
